@@ -101,6 +101,8 @@ def encode_event(e, d="out"):
         return {"e": k, "logged": e["logged"], "summary": e["summary"]}
     if k == "marker":
         return {"e": "marker", "on": e["on"], "pid": e["pid"]}
+    if k == "recreated":
+        return {"e": k, "pid": e["pid"]}
     if k == "end":
         return {"e": k, "full": bool(e.get("full", True))}
     return None
